@@ -5,7 +5,10 @@
 (*          write), rcount (Read() after each read), image (the bytes      *)
 (*          received by the sink are the big-endian concatenation of the   *)
 (*          written bits padded with zeros), values (every read returned   *)
-(*          the bits written), wPanic / rPanic, closedRefusesW/R, closeErr *)
+(*          the bits written), wPanic / rPanic, closedRefusesW/R, closeErr, *)
+(*          cutOK (C09/C03 at bit level: on the image cut by a few bytes   *)
+(*          every read before the cut is exact and the first read that     *)
+(*          needs a bit beyond it ends in the end-of-stream panic)         *)
 (***************************************************************************)
 EXTENDS Integers, Sequences, TLC, Json, IOUtils
 V == INSTANCE KzBitVec
@@ -21,6 +24,7 @@ Bad(e) == IF e.wPanic # "" THEN "C14_write_faults"
           ELSE IF e.rcount # V!Counters(e.sizes) THEN "C14_read_counter"
           ELSE IF ~e.closedRefusesW THEN "C14_closed_output_accepts_operations"
           ELSE IF ~e.closedRefusesR THEN "C14_closed_input_accepts_operations"
+          ELSE IF ~e.cutOK THEN "C09_read_beyond_end_succeeds"
           ELSE "none"
 Next == /\ l <= Len(Trace)
         /\ l' = l + 1
